@@ -176,7 +176,7 @@ def validate(v, prop, files, invs, tag):
             payload = {"property": prop, "invariant": r.violated, "trace_file": f, "line": line, "run": run_id,
                        "seed": seed(), "header": hdr,
                        "behaviour": {"cfg": evs[0].get("cfg") if evs else None,
-                                     "ops": [[e["ev"]] + [e[x] for x in ("k", "v") if x in e] for e in evs[1:]]},
+                                     "ops": [[e["ev"]] + [e[x] for x in ("k", "v", "skew") if x in e] for e in evs[1:]]},
                        "last_event": evs[-1] if evs else None}
             v.violation(f"{r.violated} fails at line {line} of {os.path.basename(f)} (run {run_id}): "
                         f"{json.dumps(payload['behaviour'])[:400]}", save_replay(prop, payload))
